@@ -586,11 +586,14 @@ func NewAllegraBlockFromCbor(
 		return nil, fmt.Errorf("decode Allegra block error: %w", err)
 	}
 
+	// A block without a header cannot be used, whether or not the body
+	// hash is validated
+	if allegraBlock.BlockHeader == nil {
+		return nil, errors.New("allegra block header is nil")
+	}
+
 	// Validate body hash during parsing if not skipped
 	if !cfg.SkipBodyHashValidation {
-		if allegraBlock.BlockHeader == nil {
-			return nil, errors.New("allegra block header is nil")
-		}
 		if err := common.ValidateBlockBodyHash(
 			data,
 			allegraBlock.BlockHeader.BlockBodyHash(),
